@@ -388,7 +388,9 @@ def op_uses(op):
 
 
 def op_binds(op):
-    if op[0] in ("new", "def", "newenum"):
+    if op[0] == "new":
+        return op[2]  # `new T label [parent]`
+    if op[0] in ("def", "newenum"):
         return op[-1]
     return None
 
